@@ -50,13 +50,34 @@ func classify(err error) errClass {
 
 // sink is the io.Writer given to WriteTo: accepts capacity bytes in total (-1: unlimited), then
 // fails with a short write.
+//
+// A gated sink (gate != nil) blocks in every Write until a ReleaseSink step sends a token; a
+// receive on a channel made inside the bubble is durably blocking, so plan steps can run while the
+// destination's Write is pending.
 type sink struct {
-	mu  sync.Mutex
-	cap int
-	buf []byte
+	mu      sync.Mutex
+	cap     int
+	buf     []byte
+	gate    chan struct{}
+	waiting bool
+}
+
+func (s *sink) isWaiting() bool {
+	s.mu.Lock()
+	defer s.mu.Unlock()
+	return s.waiting
 }
 
 func (s *sink) Write(p []byte) (int, error) {
+	if s.gate != nil {
+		s.mu.Lock()
+		s.waiting = true
+		s.mu.Unlock()
+		<-s.gate
+		s.mu.Lock()
+		s.waiting = false
+		s.mu.Unlock()
+	}
 	s.mu.Lock()
 	defer s.mu.Unlock()
 	if s.cap >= 0 && len(p) > s.cap {
@@ -105,7 +126,7 @@ type runnerA struct {
 	calls []*callRec
 }
 
-func (r *runnerA) start(c *netio.PipeConn, kind callKind, end, size int) int {
+func (r *runnerA) start(c *netio.PipeConn, kind callKind, end, size int, gated bool) int {
 	r.mu.Lock()
 	id := len(r.calls)
 	cr := &callRec{id: id, kind: kind, end: end, size: size}
@@ -116,6 +137,9 @@ func (r *runnerA) start(c *netio.PipeConn, kind callKind, end, size int) int {
 		cr.buf = make([]byte, size)
 	case cWriteTo:
 		cr.sink = &sink{cap: size}
+		if gated {
+			cr.sink.gate = make(chan struct{})
+		}
 	}
 	r.calls = append(r.calls, cr)
 	r.mu.Unlock()
@@ -162,6 +186,20 @@ func (r *runnerA) collect() []obsComp {
 	return out
 }
 
+// waitingSinks returns the pending WriteTo calls of end (or of both ends if end < 0) whose sink is
+// inside a blocked Write.
+func (r *runnerA) waitingSinks(end int) []*callRec {
+	r.mu.Lock()
+	defer r.mu.Unlock()
+	var out []*callRec
+	for _, cr := range r.calls {
+		if cr.kind == cWriteTo && !cr.done && (end < 0 || cr.end == end) && cr.sink.isWaiting() {
+			out = append(out, cr)
+		}
+	}
+	return out
+}
+
 func (r *runnerA) pending() []*callRec {
 	r.mu.Lock()
 	defer r.mu.Unlock()
@@ -176,7 +214,7 @@ func (r *runnerA) pending() []*callRec {
 
 // mismatch compares an allowed outcome with the observation; "" means it matches. The returned
 // string is a short stable description of the first difference (used in the signature).
-func mismatch(o outcome, obs []obsComp) (score int, what, detail string) {
+func mismatch(o outcome, obs []obsComp, sinkWaiting map[int]bool) (score int, what, detail string) {
 	exp := map[int]comp{}
 	for _, c := range o.Comps {
 		exp[c.ID] = c
@@ -217,6 +255,13 @@ func mismatch(o outcome, obs []obsComp) (score int, what, detail string) {
 			}
 		}
 	}
+	for d := range o.M.D {
+		for _, r := range o.M.D[d].Rd {
+			if r.Gated && r.InSink != sinkWaiting[r.ID] {
+				note("WriteTo-sink-state", fmt.Sprintf("call #%d WriteTo: sink.Write pending = %v, model says %v", r.ID, sinkWaiting[r.ID], r.InSink))
+			}
+		}
+	}
 	for _, oc := range obs {
 		if _, ok := exp[oc.id]; !ok {
 			note(oc.kind.String()+"-unexpected-return", fmt.Sprintf("call #%d %s returned n=%d err=%v but should still be blocked", oc.id, oc.kind, oc.n, oc.err))
@@ -237,7 +282,7 @@ type caseInfoA struct {
 
 func closingSteps() []step {
 	return []step{
-		{Op: opClose, End: 0}, {Op: opClose, End: 1},
+		{Op: opClose, End: 0}, {Op: opClose, End: 1}, {Op: opRelease, End: 0}, {Op: opRelease, End: 1},
 		{Op: opRead, End: 0, N: 1}, {Op: opWrite, End: 0, N: 1}, {Op: opWriteTo, End: 0, N: -1},
 		{Op: opRead, End: 1, N: 1}, {Op: opWrite, End: 1, N: 1}, {Op: opWriteTo, End: 1, N: -1},
 	}
@@ -266,8 +311,13 @@ func runPlanA(t *testing.T, plan []step) (viol string, ci caseInfoA) {
 					skip = skip || len(m.D[1-st.End].Rd) >= 3
 				}
 			}
+			if st.Op == opRelease && len(r.waitingSinks(st.End)) == 0 {
+				skip = true // nothing to release (a token must not be left behind)
+			}
 			if skip {
-				ci.Skipped++
+				if !isClosing {
+					ci.Skipped++
+				}
 				continue
 			}
 			c := ends[st.End]
@@ -275,11 +325,15 @@ func runPlanA(t *testing.T, plan []step) (viol string, ci caseInfoA) {
 			setErr := false
 			switch st.Op {
 			case opWrite:
-				id = r.start(c, cWrite, st.End, st.N)
+				id = r.start(c, cWrite, st.End, st.N, false)
 			case opRead:
-				id = r.start(c, cRead, st.End, st.N)
+				id = r.start(c, cRead, st.End, st.N, false)
 			case opWriteTo:
-				id = r.start(c, cWriteTo, st.End, st.N)
+				id = r.start(c, cWriteTo, st.End, st.N, st.G)
+			case opRelease:
+				for _, cr := range r.waitingSinks(st.End) {
+					cr.sink.gate <- struct{}{}
+				}
 			case opCloseWrite:
 				c.CloseWrite()
 			case opCloseRead:
@@ -311,6 +365,10 @@ func runPlanA(t *testing.T, plan []step) (viol string, ci caseInfoA) {
 			}
 			synctest.Wait()
 			obs := r.collect()
+			sinkWaiting := map[int]bool{}
+			for _, cr := range r.waitingSinks(-1) {
+				sinkWaiting[cr.id] = true
+			}
 			if id >= 0 {
 				hist = append(hist, fmt.Sprintf("#%d=%s", id, st))
 			} else if setErr {
@@ -328,11 +386,14 @@ func runPlanA(t *testing.T, plan []step) (viol string, ci caseInfoA) {
 				if bad != "" {
 					if bestScore < 0 {
 						bestScore, bestWhat, bestDetail = 1<<30, bad, "Set*Deadline reported an error although no direction of that end is closed"
+						if bad != "deadline-error-on-open-pipe" {
+							bestDetail = "harness/model disagreement about the step itself: " + bad
+						}
 					}
 					continue
 				}
 				for _, o := range outs {
-					score, what, detail := mismatch(o, obs)
+					score, what, detail := mismatch(o, obs, sinkWaiting)
 					if score == 0 {
 						if k := o.M.key(); !seen[k] {
 							seen[k] = true
@@ -389,6 +450,16 @@ func runPlanA(t *testing.T, plan []step) (viol string, ci caseInfoA) {
 			a.Close()
 			b.Close()
 			synctest.Wait()
+			for range 8 { // sinks still inside a gated Write: let them return (not the pipe's blocking)
+				ws := r.waitingSinks(-1)
+				if len(ws) == 0 {
+					break
+				}
+				for _, cr := range ws {
+					cr.sink.gate <- struct{}{}
+				}
+				synctest.Wait()
+			}
 		}
 		if p := r.pending(); len(p) > 0 {
 			var ss []string
@@ -434,7 +505,7 @@ func planJSONAny(v any) string {
 
 var opWeights = func() []opKind {
 	w := map[opKind]int{opWrite: 22, opRead: 28, opWriteTo: 4, opCloseWrite: 2, opCloseRead: 2, opClose: 1,
-		opSetRD: 6, opSetWD: 6, opSetD: 3, opAdvance: 10}
+		opSetRD: 6, opSetWD: 6, opSetD: 3, opAdvance: 10, opRelease: 5}
 	var s []opKind
 	for k := opKind(0); k < nOps; k++ {
 		for range w[k] {
@@ -494,6 +565,7 @@ func drawStepA(rt *rapid.T, scale int) step {
 		} else {
 			st.N = -1
 		}
+		st.G = rapid.Bool().Draw(rt, "gated")
 	case opSetRD, opSetWD, opSetD:
 		st = drawDeadlineStep(rt, st.Op, st.End)
 	case opAdvance:
@@ -578,7 +650,45 @@ func drawPlanA(rt *rapid.T) []step {
 			} else {
 				plan = append(plan, w, r)
 			}
-		case 5, 6, 7: // matched transfer
+		case 7: // WriteTo into a gated sink; steps while the sink's Write is pending; release
+			wt := step{Op: opWriteTo, End: y, N: -1, G: true}
+			if rapid.IntRange(0, 3).Draw(rt, "capped") == 0 {
+				wt.N = rapid.IntRange(0, 2*scale).Draw(rt, "cap")
+			}
+			w := step{Op: opWrite, End: x, N: max(1, drawWriteSize(rt, scale))}
+			if rapid.Bool().Draw(rt, "writeFirst") {
+				plan = append(plan, w, wt)
+			} else {
+				plan = append(plan, wt, w)
+			}
+			for range rapid.IntRange(1, 3).Draw(rt, "mid") {
+				switch rapid.IntRange(0, 9).Draw(rt, "midk") {
+				case 0, 1: // the deadline fires and is cleared / moved before the sink returns
+					plan = append(plan, step{Op: rapid.SampledFrom([]opKind{opSetRD, opSetD}).Draw(rt, "dop"), End: y,
+						DL: rapid.SampledFrom([]int{dlLongAgo, dlJustNow}).Draw(rt, "past")})
+					plan = append(plan, step{Op: rapid.SampledFrom([]opKind{opSetRD, opSetD}).Draw(rt, "dop2"), End: y,
+						DL: rapid.SampledFrom([]int{dlZero, dlFuture}).Draw(rt, "clear"), D: rapid.IntRange(0, 30).Draw(rt, "dms")})
+				case 2:
+					plan = append(plan, drawDeadlineStep(rt, rapid.SampledFrom([]opKind{opSetRD, opSetD}).Draw(rt, "dop"), y))
+				case 3:
+					plan = append(plan, drawDeadlineStep(rt, rapid.SampledFrom([]opKind{opSetWD, opSetD}).Draw(rt, "dop"), x))
+				case 4:
+					plan = append(plan, step{Op: opAdvance, D: rapid.IntRange(1, 25).Draw(rt, "adv")})
+				case 5:
+					plan = append(plan, step{Op: rapid.SampledFrom([]opKind{opCloseRead, opClose}).Draw(rt, "cop"), End: y})
+				case 6:
+					plan = append(plan, step{Op: rapid.SampledFrom([]opKind{opCloseWrite, opClose}).Draw(rt, "cop"), End: x})
+				case 7:
+					plan = append(plan, step{Op: opRead, End: y, N: drawReadSize(rt, scale)})
+				default:
+					plan = append(plan, drawStepA(rt, scale))
+				}
+			}
+			plan = append(plan, step{Op: opRelease, End: y})
+			if rapid.Bool().Draw(rt, "again") {
+				plan = append(plan, step{Op: opWrite, End: x, N: drawWriteSize(rt, scale)}, step{Op: opRelease, End: y})
+			}
+		case 5, 6: // matched transfer
 			w, r := step{Op: opWrite, End: x, N: drawWriteSize(rt, scale)}, step{Op: opRead, End: y, N: drawReadSize(rt, scale)}
 			if rapid.Bool().Draw(rt, "readFirst") {
 				plan = append(plan, r, w)
@@ -612,15 +722,17 @@ type replayDoc struct {
 }
 
 var recA = ev.New("C15", "owned-schedule",
-	"rapid: plan of 1..24 blocks (a block is one free step, 60%, or a 2..4 step idiom: write met by a smaller read / deadline armed around a blocking call then reached / half-close then reverse traffic / matched transfer) over {Write(n), Read(m), WriteTo(sink with capacity), CloseWrite, CloseRead, Close, "+
-		"Set{Read,Write,}Deadline(zero | long ago | now-1ns | now+k.5ms), advance virtual time k ms} on either end, write sizes 0..scale, "+
+	"rapid: plan of 1..24 blocks (a block is one free step, 60%, or a 2..4 step idiom: write met by a smaller read / deadline armed around a blocking call then reached / half-close then reverse traffic / matched transfer / WriteTo into a gated sink with 1..3 steps before the release) over {Write(n), Read(m), WriteTo(sink with capacity), CloseWrite, CloseRead, Close, "+
+		"Set{Read,Write,}Deadline(zero | long ago | now-1ns | now+k.5ms), advance virtual time k ms, ReleaseSink} on either end; a WriteTo sink is plain or gated (its Write blocks until a ReleaseSink step, so closes, deadline changes and other calls happen while the destination's Write is pending); write sizes 0..scale, "+
 		"read buffers 0..3*scale, scale in {1..5000}; each call runs in its own goroutine inside a synctest bubble (at most one blocked "+
 		"writer per end, at most 3 blocked readers per end); after every step synctest.Wait() and the set of returned calls with (n, err, data) "+
 		"must equal an outcome of the rendezvous-pipe reference model; every plan ends with Close of both ends and probes. "+
 		"Non-trivial: the plan had a partial write (reader took less than the write had left), a deadline that woke a blocked call, and a "+
 		"transfer on a direction whose reverse direction was already closed; distinct key = sequence of (op, end, completion classes)").
 	Require("partial-write", "deadline-woke-pending", "deadline-woke-partial-write", "half-close-reverse-used", "close-woke-pending",
-		"multi-reader-choice", "zero-write", "zero-read", "writeto-moved", "sink-fail", "deadline-refreshed-after-fire")
+		"multi-reader-choice", "zero-write", "zero-read", "writeto-moved", "sink-fail", "deadline-refreshed-after-fire",
+		"deadline-changed-while-sink-write-pending", "deadline-fired-and-cleared-while-sink-write-pending", "deadline-fired-while-sink-write-pending",
+		"close-while-sink-write-pending", "gated-sink-released")
 
 func labelsA(ci caseInfoA, plan []step) []string {
 	var l []string
@@ -642,6 +754,13 @@ func labelsA(ci caseInfoA, plan []step) []string {
 	add(f.SinkFail, "sink-fail")
 	add(f.Fork, "lenient-fork")
 	add(f.Refreshed, "deadline-refreshed-after-fire")
+	add(f.GatedMoved, "gated-sink-released")
+	add(f.StepInSink, "step-while-sink-write-pending")
+	add(f.DlChangedInSink, "deadline-changed-while-sink-write-pending")
+	add(f.DlClearedInSink, "deadline-fired-and-cleared-while-sink-write-pending")
+	add(f.DlFiredInSink, "deadline-fired-while-sink-write-pending")
+	add(f.CloseInSink, "close-while-sink-write-pending")
+	add(f.WdlInSink, "write-deadline-while-sink-write-pending")
 	add(ci.MaxCands > 1, "multiple-model-candidates")
 	add(ci.Skipped > 0, "step-skipped-by-gate")
 	return l
@@ -750,6 +869,18 @@ func TestFixedPlansA(t *testing.T) {
 			{Op: opWriteTo, End: A, N: 3}, {Op: opWrite, End: B, N: 2}, {Op: opWrite, End: B, N: 4}, {Op: opCloseRead, End: A}},
 			[]string{"", "#1 n=5 nil", "#2 n=0 nil", "#0 n=5 nil", "", "#4 n=2 nil", "#3 n=3 sink", "#5 n=1 closed"},
 			func(f facts) bool { return f.WriteToMoved && f.SinkFail }},
+		{"read deadline fires and is cleared while WriteTo is inside the sink's Write", []step{
+			{Op: opWriteTo, End: B, N: -1, G: true}, {Op: opWrite, End: A, N: 3}, {Op: opSetRD, End: B, DL: dlLongAgo}, {Op: opSetRD, End: B, DL: dlZero},
+			{Op: opRelease, End: B}, {Op: opWrite, End: A, N: 2}, {Op: opSetD, End: B, DL: dlJustNow}, {Op: opSetD, End: B, DL: dlFuture, D: 9},
+			{Op: opRelease, End: B}, {Op: opCloseWrite, End: A}},
+			[]string{"", "", "", "", "#1 n=3 nil", "", "", "", "#2 n=2 nil", "#0 n=5 nil"},
+			func(f facts) bool { return f.DlChangedInSink && f.DlClearedInSink && f.GatedMoved }},
+		{"deadline still expired / direction closed when the sink returns", []step{
+			{Op: opWriteTo, End: B, N: -1, G: true}, {Op: opWrite, End: A, N: 3}, {Op: opSetRD, End: B, DL: dlFuture, D: 2}, {Op: opSetWD, End: A, DL: dlLongAgo},
+			{Op: opAdvance, D: 3}, {Op: opRelease, End: B},
+			{Op: opWriteTo, End: A, N: 1, G: true}, {Op: opWrite, End: B, N: 4}, {Op: opCloseRead, End: A}, {Op: opRelease, End: A}},
+			[]string{"", "", "", "", "", "#0 n=3 timeout, #1 n=3 nil", "", "", "", "#2 n=1 sink, #3 n=1 closed"},
+			func(f facts) bool { return f.DlFiredInSink && f.CloseInSink && f.WdlInSink }},
 	}
 	for _, c := range cases {
 		viol, ci := runPlanA(t, c.plan)
